@@ -137,7 +137,8 @@ def sub_index(n, step):
     return np.unique(np.concatenate([np.arange(0, n, step), [0, 1, n - 2, n - 1]]))
 
 
-def check_cover(R: Run, key: str, case, src_shape, dst_shape, px, py, r, eps, sig, src_limit=None, rows=None, cols=None):
+def check_cover(R: Run, key: str, case, src_shape, dst_shape, px, py, r, eps, sig, src_limit=None, rows=None, cols=None,
+                env=None):
     """px,py: source pixel coordinates of the destination pixel centres (rows x cols; all pixels by default)."""
     sny, snx = src_shape
     dny, dnx = dst_shape
@@ -160,24 +161,46 @@ def check_cover(R: Run, key: str, case, src_shape, dst_shape, px, py, r, eps, si
         iy, ix = np.argwhere(miss_dst)[0]
         what = (f"{int(miss_dst.sum())} checked dst pixels dropped, e.g. (row {rows[iy]}, col {cols[ix]}) maps to src "
                 f"({px[iy, ix]:.6f}, {py[iy, ix]:.6f}) inside the source {src_shape} but is outside roi_dst={r.roi_dst}")
-    kdst = key + "-dst-pixel-dropped"
-    if miss_dst.any() and key == "xcrs":
-        # curved edges: the 16-sample envelope is only sub-pixel accurate.  Class "sliver": every dropped pixel is in the
-        # row/column directly outside roi_dst AND its source location is within a quarter pixel of the source border
-        ii, jj = np.nonzero(miss_dst)
-        depth = max(yd.start - rows[ii].min(), rows[ii].max() - yd.stop + 1, xd.start - cols[jj].min(), cols[jj].max() - xd.stop + 1)
-        margin = np.minimum(np.minimum(px[miss_dst], snx - px[miss_dst]), np.minimum(py[miss_dst], sny - py[miss_dst])).max()
-        if depth <= 1 and margin <= 0.25 and yd.stop > yd.start and xd.stop > xd.start:
-            kdst = "xcrs-curved-edge-sliver-dropped"
-            what += f" (sliver: at most {margin:.4f} px inside the source border)"
+    kdst, ksrc = key + "-dst-pixel-dropped", key + "-src-pixel-dropped"
+    if env is not None and (miss_dst.any() or miss_src.any()):
+        # Cross-CRS plans are DESIGNED as the envelope of 5 boundary samples per side (roi_src: padded; roi_dst: unpadded).
+        # What that design can miss where an edge maps to a curve is the known finding; `env` recomputes the two
+        # envelopes independently (pyproj, float64).  A miss is routed to the known key only if EVERY missed pixel lies
+        # outside the independent 5-point envelope; anything the 5-point design would have covered keeps the general key.
+        try:
+            (slo, shi, spad), dfun = env
+            tol_ = 2e-3
+            if miss_src.any():
+                mx_, my_ = px[miss_src], py[miss_src]
+                out = ((mx_ < slo[0] - spad - tol_) | (mx_ > shi[0] + spad + tol_) | (my_ < slo[1] - spad - tol_)
+                       | (my_ > shi[1] + spad + tol_))
+                if out.all():
+                    ksrc = "xcrs-curved-edge-sliver-dropped"
+                    what_s = " (every missed location lies outside the 5-samples-per-side envelope of the design)"
+                else:
+                    what_s = f" ({int((~out).sum())} of them INSIDE the 5-samples-per-side envelope)"
+            if miss_dst.any():
+                dlo, dhi = dfun()
+                ii, jj = np.nonzero(miss_dst)
+                cx_, cy_ = cols[jj] + 0.5, rows[ii] + 0.5
+                out = (cx_ < dlo[0] - tol_) | (cx_ > dhi[0] + tol_) | (cy_ < dlo[1] - tol_) | (cy_ > dhi[1] + tol_)
+                if out.all() and not miss_src.any() or (out.all() and ksrc.endswith("sliver-dropped")):
+                    kdst = "xcrs-curved-edge-sliver-dropped"
+                    what += " (every dropped pixel lies outside the 5-samples-per-side envelope of the design)"
+                else:
+                    what += f" ({int((~out).sum())} of them INSIDE the 5-samples-per-side envelope)"
+        except Exception as ex:  # pylint: disable=broad-except
+            what += f" (envelope classification failed: {ex})"
+            what_s = ""
+    else:
+        what_s = ""
     R.oracle(not miss_dst.any(), kdst, case, what, sig=sig + "|dst-covers", trivial=not inside.any())
     what = ""
     if miss_src.any():
         iy, ix = np.argwhere(miss_src)[0]
         what = (f"{int(miss_src.sum())} checked dst pixels, e.g. (row {rows[iy]}, col {cols[ix]}), map to src "
-                f"({px[iy, ix]:.6f}, {py[iy, ix]:.6f}) inside the source {src_shape} but outside roi_src={r.roi_src}")
-    R.oracle(not miss_src.any(), key + "-src-pixel-dropped", case, what, sig=sig + "|src-covers",
-             trivial=not inside.any())
+                f"({px[iy, ix]:.6f}, {py[iy, ix]:.6f}) inside the source {src_shape} but outside roi_src={r.roi_src}") + what_s
+    R.oracle(not miss_src.any(), ksrc, case, what, sig=sig + "|src-covers", trivial=not inside.any())
     return bool(inside.any())
 
 
@@ -839,6 +862,43 @@ def run(R: Run):
         oracle_linear(R, case, sshape, dshape, A6, r, pad, None, 1e-4, f"float-tiny-{kind}-1e-{mag}" + ("|paste" if r.paste_ok else ""),
                       st_scale=None)
 
+    # --- fine zoom-in far from the source origin: source pixel coordinates of 1e4 .. 1e5 (float32 spacing 1e-3 .. 1e-2 px),
+    #     destination 8 .. 64 times finer, window edges a small real overhang away from whole source pixels, padding 0 often
+    for _ in range(R.pick(250, 2500)):
+        z = rng.choice([8, 16, 16, 32, 64, 10, 25, 50])
+        sshape = (rng.randint(40000, 120000), rng.randint(40000, 120000))
+        dshape = (rng.randint(10, 160), rng.randint(10, 160))
+        sg = (rng.choice([1, 1, -1]), rng.choice([1, 1, -1]))
+
+        def edge(nsrc, nd, sgn):
+            lo = rng.randint(10000, nsrc - 2000)
+            # low edge just below / above a whole source pixel (a real overhang of 0.002 .. 0.06 px), or anywhere
+            lo = lo + rng.choice([-1, 1]) * rng.uniform(0.002, 0.06) if rng.random() < 0.7 else lo + rng.random()
+            if rng.random() < 0.6:  # make the high edge overhang a whole pixel by a similar small amount
+                hi = math.ceil(lo + nd / z) + rng.choice([-1, 1]) * rng.uniform(0.002, 0.06)
+                lo = hi - nd / z
+            return (lo if sgn > 0 else lo + nd / z)
+
+        M = Affine(sg[0] / z, 0, edge(sshape[1], dshape[1], sg[0]), 0, sg[1] / z, edge(sshape[0], dshape[0], sg[1]))
+        S = float_src_affine(rng, rng.choice([2.0**-8, 1 / 256, 30, 10, 0.00025, 1.0, 1e-5, 1e3]))
+        S = Affine.translation(*(S * (-sshape[1] / 2, -sshape[0] / 2))) * Affine.scale(S.a, S.e) if rng.random() < 0.5 else S
+        D = S * M
+        pad = rng.choice([0, 0, 0, 0, 1, 1, None])
+        al = rng.choice([None, None, None, None, 0, 4])
+        src, dst = gb(sshape, S), gb(dshape, D)
+        case = {"fn": "compute_reproject_roi", "src_shape": sshape, "dst_shape": dshape, "src_affine": list(S)[:6],
+                "dst_affine": list(D)[:6], "padding": pad, "align": al, "crs": CRS0}
+        try:
+            r = O.compute_reproject_roi(src, dst, padding=pad, align=al)
+        except Exception as e:  # pylint: disable=broad-except
+            R.oracle(False, "plan-raises", case, f"compute_reproject_roi raised {type(e).__name__}: {e}", sig="plan|raises")
+            continue
+        # judged on the exact transform of the two grids; a pixel centre is 1/(2z) >= 0.0078 px from the window edge, far
+        # more than the planner's own double / float32 noise at these coordinates (<= 0.004 px)
+        A6 = fmul(finv(faff(S)), faff(D))
+        oracle_linear(R, case, sshape, dshape, A6, r, pad, al, 1e-4, f"float-zoomin-far-z{z}-pad{pad}",
+                      st_scale=(float(abs(A6[0])), float(abs(A6[4]))))
+
     # --- caller supplied tolerances, scales straddling k ± stol (oracle only)
     for _ in range(R.pick(300, 3000)):
         stol = rng.choice([1e-2, 1e-3, 1e-4, 1e-6])
@@ -1041,7 +1101,27 @@ def cross_crs(R: Run, O, gb):
         sy[~np.isfinite(sy)] = np.nan
         px, py = apply_np(finv(faff(SA)), sx, sy)
         sig = f"xcrs|{crs_tag(a)}>{crs_tag(b)}|{tag}" + ("|hist" if hist else "")
-        anyin = check_cover(R, "xcrs", case, sshape, dshape, px, py, r, 1e-6, sig, rows=rows, cols=cols)
+        def env5(rect, A_from, c_from, c_to, A_to):
+            """independent envelope (target pixel coords) of 5 samples per side of `rect` = (y0, y1, x0, x1)"""
+            y0, y1, x0, x1 = rect
+            ex, ey = np.linspace(x0, x1, 5), np.linspace(y0, y1, 5)
+            bx = np.concatenate([ex, ex, np.full(5, x0), np.full(5, x1)])
+            by = np.concatenate([np.full(5, y0), np.full(5, y1), ey, ey])
+            wx_, wy_ = apply_np(faff(A_from), bx, by)
+            if c_from == "EPSG:4326":
+                wx_, wy_ = np.clip(wx_, -180, 180), np.clip(wy_, -90, 90)
+            qx_, qy_ = tf(c_from, c_to).transform(wx_, wy_)
+            qx_, qy_ = apply_np(finv(faff(A_to)), np.asarray(qx_, dtype="float64"), np.asarray(qy_, dtype="float64"))
+            ok_ = np.isfinite(qx_) & np.isfinite(qy_)
+            if not ok_.any():
+                return (np.inf, np.inf), (-np.inf, -np.inf)
+            return (qx_[ok_].min(), qy_[ok_].min()), (qx_[ok_].max(), qy_[ok_].max())
+
+        slo, shi = env5((0, dshape[0], 0, dshape[1]), DA, b, a, SA)
+        (ys_, xs_) = r.roi_src
+        env = ((slo, shi, 1 if pad is None else pad),
+               lambda: env5((ys_.start, ys_.stop, xs_.start, xs_.stop), SA, a, b, DA))
+        anyin = check_cover(R, "xcrs", case, sshape, dshape, px, py, r, 1e-6, sig, rows=rows, cols=cols, env=env)
         R.oracle(r.paste_ok is False and r.transform.linear is None, "xcrs-treated-as-same-crs", case,
                  f"different CRSs planned as a same-CRS pair (paste_ok={r.paste_ok}, linear={r.transform.linear is not None})",
                  sig="xcrs|nopaste", trivial=True)
@@ -1248,13 +1328,41 @@ def cross_crs(R: Run, O, gb):
         slat = min(max(lat + off * math.sin(ang), lat0 + es / 2), lat1 - es / 2)
         sshape = (rng.randint(100, 600), rng.randint(100, 600))
         dshape = (rng.randint(100, 400), rng.randint(100, 400))
+        # aspect-ratio classes: square / moderately elongated / strips of 1-3 rows or columns by 1e3 .. 2e4 pixels
+        asp = rng.choice(["square", "square", "elongated", "strip-dst", "strip-dst", "strip-dst", "strip-src"])
+        tag = "large"
         try:
             sbox = make_box_ext(a, slon, slat, es, sshape)
             dbox = make_box_ext(b, lon, lat, ed, dshape)
+            if asp == "elongated":
+                dshape = (rng.randint(20, 60), rng.randint(400, 1500))[:: rng.choice([1, -1])]
+                dbox = make_box_ext(b, lon, lat, ed, dshape)
+                tag = "large-elongated"
+            elif asp in ("strip-dst", "strip-src"):
+                thin, long_ = rng.choice([1, 1, 2, 3]), rng.randint(1000, 20000)
+                which, crs_ = (dbox, b) if asp == "strip-dst" else (sbox, a)
+                (_, A0) = make_box_ext(crs_, lon if asp == "strip-dst" else slon, lat if asp == "strip-dst" else slat,
+                                       ed if asp == "strip-dst" else es, (long_, long_))
+                # square pixels of the long side's size; the strip lies somewhere inside that window
+                if rng.random() < 0.5:
+                    shp = (thin, long_)
+                    Astrip = A0 * Affine.translation(0, rng.randint(0, long_ - thin))
+                else:
+                    shp = (long_, thin)
+                    Astrip = A0 * Affine.translation(rng.randint(0, long_ - thin), 0)
+                if asp == "strip-dst":
+                    dbox, dshape = (shp, Astrip), shp
+                    # a source that covers the strip with room to spare, fine enough that one pixel matters
+                    sshape = (rng.randint(300, 900), rng.randint(300, 900))
+                    sbox = make_box_ext(a, lon, lat, ed * 1.3, sshape)
+                else:
+                    sbox, sshape = (shp, Astrip), shp
+                tag = "large-" + asp + f"-{thin}"
         except Exception:  # pylint: disable=broad-except
             continue
         done += 1
-        one_case(a, b, sbox, dbox, rng.choice([None, None, 1, 0]), None, "large")
+        st_ = 1 if dshape[0] * dshape[1] <= 120_000 else max(2, int(math.sqrt(dshape[0] * dshape[1] / 60_000)))
+        one_case(a, b, sbox, dbox, rng.choice([None, None, 1, 0]), None, tag, step=st_)
 
 
 def rebuild(case):
